@@ -471,6 +471,34 @@ def hint_changes_m2m_into_column(case, outcome, atoms):
             not (a[0] == 'exception')]
 
 
+@explainer
+def hint_changes_m2m_into_column_rows(case, outcome, atoms):
+    """F-C01-10 seen through the rows: the column that should replace a
+    ManyToManyField of the same name is never added (and the link table of the
+    reverse replacement never created), so its values cannot be read."""
+    from . import specs as S
+    if case.get('mode') != 'hinted':
+        return atoms
+    trail = _trail(case)
+    start, final = trail[0], trail[-1]
+    uids = set()
+    for a, n, m in S.iter_models(final):
+        m0 = S.get_model(start, a, n)
+        if m0 is None:
+            continue
+        for f in m['fields']:
+            f0 = S.get_field(m0, f['name'])
+            if f0 and (f0['kind'] == 'ManyToMany') != (f['kind'] == 'ManyToMany'):
+                uids.add(f['uid'])
+                uids.add(f0['uid'])
+    if not uids:
+        return atoms
+    return [a for a in atoms
+            if not (a[0] in ('rows', 'links') and len(a) > 3 and a[3] in uids) and
+            not (a[0] in ('rows', 'links') and a[1] in ('column_unreadable', 'table_unreadable')
+                 and any(u in a for u in uids))]
+
+
 # ---------------------------------------------------------------------------
 # F-C01-11
 # ---------------------------------------------------------------------------
